@@ -38,7 +38,9 @@ class Precondition:
         numeric_expressions = []
         for operand in self.operands:
             if isinstance(operand, Precondition):
-                compound_preconditions.append(str(operand))
+                compound_preconditions.append(
+                    operand.print(should_simplify, decimal_digits)
+                )
 
             elif isinstance(operand, Predicate):
                 discrete_preconditions.append(operand.untyped_representation)
@@ -402,15 +404,25 @@ class UniversalPrecondition(Precondition):
         self.quantified_type = quantified_type
         super().__init__(binary_operator)
 
-    def __str__(self):
+    def print(
+        self, should_simplify: bool = True, decimal_digits: int = DEFAULT_DECIMAL_DIGITS
+    ) -> str:
+        """Print the universal precondition in PDDL format.
+
+        :param should_simplify: whether to print the quantified conditions in a simplified format.
+        :param decimal_digits: the number of decimal digits to keep.
+        """
         if len(self.operands) == 0:
             return ""
 
-        internal_condition_string = super()._print_self()
+        internal_condition_string = super()._print_self(should_simplify, decimal_digits)
         return (
             f"(forall ({self.quantified_parameter} - {self.quantified_type.name})"
             f"\n\t{internal_condition_string})"
         )
+
+    def __str__(self):
+        return self.print()
 
     def __hash__(self) -> int:
         return hash(str(self))
